@@ -108,6 +108,16 @@ def run(ctx):
         got = np.asarray(get_pileup(t, S).to_array()).tolist()
         ctx.check("pileup", got == c.tolist(), "get_pileup/coverage", "pileup %r != coverage %r" % (got, c.tolist()), dict(case, got=got, expected=c.tolist()), nt)
         unchanged(t, before, "get_pileup", case)
+        # the pileup routine of the bedGraph module (same definition: number of intervals covering each base)
+        from bionumpy.arithmetics.bedgraph import get_pileup as bedgraph_pileup
+        try:
+            got = np.asarray(bedgraph_pileup(t, S).to_array()).tolist()
+        except Exception as e:
+            from bnpmon.ctx import originates_in_library
+            if not originates_in_library(e):
+                raise
+            got = "raised %s" % type(e).__name__
+        ctx.check("pileup", got == c.tolist(), "bedgraph.get_pileup/coverage", "bedgraph.get_pileup %r != coverage %r" % (got, c.tolist()), dict(case, got=got, expected=c.tolist()), nt and (nt, "bg"))
         # mask
         got = np.asarray(get_boolean_mask(t, S).to_array()).astype(bool).tolist()
         ctx.check("mask", got == (c > 0).tolist(), "get_boolean_mask/coverage>0", "mask %r != coverage>0 %r" % (got, (c > 0).tolist()), dict(case, got=got), nt)
